@@ -6,7 +6,7 @@ CONSTANTS
   FFSeq <- DefFFSeq
   CFSeq <- DefCFSeq
   Ops <- AllOps
-  Modes <- ModesA
+  Modes <- ModesSim
   NT = 5
   NS = 2
   MaxV = 40
